@@ -19,11 +19,19 @@ def fault_menu(seed):
         acts = []
         L = live(m)
         P, F, Q = pols(m), focks(m), customs(m)
+        for e in m.envs:
+            f_, p_ = e + ".f", e + ".p"
+            if m.ref.alive(f_) and m.ref.alive(p_) and int(w.objs[f_].dimensions) > 1:
+                for t in ([f_, p_], [p_, f_]):
+                    acts.append(["kraus", "env:" + e, t, "nontp-complex", None])
+                    h_ = first_handle(m, t)
+                    if h_:
+                        acts.append(["kraus", "ce:" + h_, t, "nontp-complex", None])
         for s in L:
             for ent in entries_for(m, s):
                 if int(w.objs[s].dimensions) > 1:      # operator sizes are only meaningful once the dimension is set
                     # Kraus sets that are not trace preserving / of the wrong size
-                    for n in ("nontp", "wrongsize+", "wrongsize-"):
+                    for n in ("nontp", "nontp-complex", "wrongsize+", "wrongsize-"):
                         acts.append(["kraus", ent, [s], n, None])
                     # measurement operators of the wrong size
                     for n in ("wrongsize+", "wrongsize-"):
@@ -60,6 +68,14 @@ def fault_menu(seed):
                 acts.append(["op", "env:" + e0, [e1 + ".p"], "X", None])
                 acts.append(["kraus", "env:" + e0, [e1 + ".p"], "dephase", None])
                 acts.append(["povm", "env:" + e0, [e1 + ".p"], "proj", False, True])
+            for ea, eb in ((e0, e1), (e1, e0)):
+                # a Fock space of the other envelope (it may hold the same value as the envelope's own)
+                if m.ref.alive(eb + ".f") and m.ref.alive(ea + ".f"):
+                    acts.append(["op", "env:" + ea, [eb + ".f"], "PhaseShift", {"phi": 0.4}])
+                    acts.append(["op", "env:" + ea, [eb + ".f"], "FIdentity", None])
+                    if int(w.objs[eb + ".f"].dimensions) > 1:
+                        acts.append(["kraus", "env:" + ea, [eb + ".f"], "loss", None])
+                        acts.append(["povm", "env:" + ea, [eb + ".f"], "proj", False, True])
         # shrinking below the occupied levels
         for f in F:
             occ = m.ref.max_occupation(f)
